@@ -31,6 +31,7 @@ type Prog struct {
 	AllFns  map[*ssa.Function]bool
 	cg      *callgraph.Graph
 	fnIndex map[string]*ssa.Function
+	Flatten *flattenStats
 	LoadS   float64
 	SSAS    float64
 	CGS     float64
@@ -52,21 +53,45 @@ func loadProg(repo, tags string, controls map[string][]byte) (*Prog, error) {
 		cfg.BuildFlags = []string{"-tags=" + tags}
 	}
 	patterns := []string{"./..."}
+	cfg.Overlay = map[string][]byte{}
 	if len(controls) > 0 {
-		cfg.Overlay = map[string][]byte{}
 		for name, src := range controls {
 			cfg.Overlay[filepath.Join(repo, controlsRel, name)] = src
 		}
 		patterns = append(patterns, "./"+controlsRel)
 	}
+	var fstats *flattenStats
+	if os.Getenv("VERIF_NO_FLATTEN") == "" {
+		fo, st, ferr := flattenOverlay(repo, flattenVerifDir, tags)
+		fstats = st
+		if ferr == nil {
+			for k, v := range fo {
+				cfg.Overlay[k] = v
+			}
+		}
+	}
 	pkgs, err := packages.Load(cfg, patterns...)
 	if err != nil {
 		return nil, fmt.Errorf("packages.Load: %w", err)
 	}
+	if fstats != nil && len(fstats.Inlined) > 0 && moduleHasTypeErrors(pkgs) {
+		// never let the normalisation break the analysis: fall back to the files as they are
+		for k := range cfg.Overlay {
+			if !strings.Contains(k, controlsRel) {
+				delete(cfg.Overlay, k)
+			}
+		}
+		fstats.Skipped = append(fstats.Skipped, "ALL: the flattened files did not type-check; analysed without flattening")
+		fstats.Inlined = nil
+		pkgs, err = packages.Load(cfg, patterns...)
+		if err != nil {
+			return nil, fmt.Errorf("packages.Load: %w", err)
+		}
+	}
 	if len(pkgs) == 0 {
 		return nil, fmt.Errorf("no packages loaded from %s", repo)
 	}
-	p := &Prog{Repo: repo, Tags: tags, ByPath: map[string]*packages.Package{}, fnIndex: map[string]*ssa.Function{}}
+	p := &Prog{Repo: repo, Tags: tags, ByPath: map[string]*packages.Package{}, fnIndex: map[string]*ssa.Function{}, Flatten: fstats}
 	var typeErrs []string
 	seenRoot := map[string]bool{}
 	var roots []*packages.Package
@@ -263,4 +288,17 @@ func addWithAnons(set map[*ssa.Function]bool, f *ssa.Function) {
 	for _, a := range f.AnonFuncs {
 		addWithAnons(set, a)
 	}
+}
+
+// flattenVerifDir: where the baseline function inventory lives ("" disables flattening).
+var flattenVerifDir = ""
+
+func moduleHasTypeErrors(pkgs []*packages.Package) bool {
+	bad := false
+	packages.Visit(pkgs, nil, func(pk *packages.Package) {
+		if strings.HasPrefix(pk.PkgPath, modPath) && (len(pk.Errors) > 0 || pk.IllTyped) {
+			bad = true
+		}
+	})
+	return bad
 }
